@@ -15,20 +15,20 @@ import (
 )
 
 type stdioPeerCfg struct {
-	Init       []string          `json:"init"`       // outcome of the k-th initialize request
-	CountFile  string            `json:"count_file"` // number of lines received so far is written here
-	Answers    map[string]string `json:"answers"`    // method -> raw result JSON (overrides)
-	Emit       []stdioEmit       `json:"emit"`       // extra output tied to the n-th request line
-	ExitAfter  int               `json:"exit_after"` // exit (code 0) after this many request lines (0 = never)
-	KillSelf   int               `json:"kill_self"`  // SIGKILL-like abrupt exit after this many lines (0 = never)
-	Silent     []string          `json:"silent"`     // methods that are never answered
-	DelayMs    int               `json:"delay_ms"`
+	Init      []string          `json:"init"`       // outcome of the k-th initialize request
+	CountFile string            `json:"count_file"` // number of lines received so far is written here
+	Answers   map[string]string `json:"answers"`    // method -> raw result JSON (overrides)
+	Emit      []stdioEmit       `json:"emit"`       // extra output tied to the n-th request line
+	ExitAfter int               `json:"exit_after"` // exit (code 0) after this many request lines (0 = never)
+	KillSelf  int               `json:"kill_self"`  // SIGKILL-like abrupt exit after this many lines (0 = never)
+	Silent    []string          `json:"silent"`     // methods that are never answered
+	DelayMs   int               `json:"delay_ms"`
 	// C08: after this many tools/call lines the answer to the first of them is cut at FaultAt and the fault follows
 	FaultAfterCalls int    `json:"fault_after_calls"`
 	Fault           string `json:"fault"`    // exit kill stall close
 	FaultAt         string `json:"fault_at"` // boundary name or byte:N
 	FaultFile       string `json:"fault_file"`
-	AnswerFile string            `json:"answer_file"` // when set: every non-initialize request is answered from this file ({"raw":..,"is_err":..})
+	AnswerFile      string `json:"answer_file"` // when set: every non-initialize request is answered from this file ({"raw":..,"is_err":..})
 }
 
 type stdioEmit struct {
